@@ -290,10 +290,14 @@ fn burst(id: u64, threads: usize, n: usize, far: bool, cap: i64, mix: &'static s
     let maxcount = Arc::new(AtomicU64::new(0));
     let mut hs = Vec::new();
     for t in 0..threads {
-        let (cache2, done2) = (cache.clone(), done.clone());
+        let (cache2, done2, clock2) = (cache.clone(), done.clone(), clock.clone());
         hs.push(std::thread::spawn(move || {
             let mut rng = Rng::new(id * 77 + t as u64);
             for i in 0..n {
+                if far && i % 16 == 0 {
+                    // stay beyond the periodical-sync interval: every maintenance run re-arms it
+                    clock2.advance(Duration::from_secs(1));
+                }
                 // many distinct keys so that the map really grows between maintenance runs
                 let k = (t * n + i) as u32 + 1;
                 // "writes": nothing but inserts, so that only the write channel can trigger
